@@ -4,4 +4,5 @@ set -e
 cd "$(dirname "$0")/engine/driver"
 CARGO_NET_OFFLINE=true cargo +nightly build --offline --release 2>&1 | tail -3
 test -x target/release/glam-facts
+cp -f /repo/Cargo.lock "$(dirname "$0")/../../witness/Cargo.lock" 2>/dev/null || true
 echo "setup ok"
